@@ -83,6 +83,9 @@ func init() {
 				add("hashmap-k3-pre1", merge(base, p("k", 3, "pre", 1, "index", 3, "shards", 1)))
 				add("btree-k2-pre2-rot", merge(base, p("k", 2, "pre", 2, "index", 1, "shards", 1, "dfs_lo", 40, "dfs_hi", 100)))
 				add("hashmap-k3-overflow", merge(base, p("k", 3, "pre", 0, "index", 3, "shards", 1, "vlens", 3, "vbig", 20, "dfs_lo", 110, "dfs_hi", 170)))
+				add("skiplist-k3-pre1-s2", merge(base, p("k", 3, "pre", 1, "index", 2, "shards", 2, "vlens", 1)))
+				add("skiplist-k2-pool3-s1", merge(base, p("k", 2, "pre", 2, "pool", 3, "index", 2, "shards", 1, "vlens", 1)))
+				add("btree-k2-mmap-s2", merge(base, p("k", 2, "pre", 1, "index", 1, "shards", 2, "io", 1)))
 			} else {
 				for idx := 1; idx <= 3; idx++ {
 					add(fmt.Sprintf("%s-k4-pre1", idxName[idx]), merge(base, p("k", 4, "pre", 1, "index", idx, "shards", 2)))
@@ -293,6 +296,7 @@ func init() {
 				add("batch-k2", merge(base, p("k", 2, "ops", opPut|opDelete|opBatch, "bmax", 2, "dfs_lo", 60, "dfs_hi", 160)))
 				add("merge-k3", merge(base, p("k", 3, "ops", opPut|opDelete|opMerge, "dfs_lo", 60, "dfs_hi", 160)))
 				add("merge-restart-k3-btree", merge(base, p("k", 3, "ops", opPut|opDelete|opMerge|opRestart, "index", 1, "dfs_lo", 60, "dfs_hi", 100, "vlens", 1)))
+				add("skiplist-s2-mmap-k2", merge(base, p("k", 2, "ops", opPut|opDelete|opRestart, "index", 2, "shards", 2, "io", 1, "dfs_lo", 60, "dfs_hi", 100)))
 			} else {
 				add("plain-k4", merge(base, p("k", 4, "ops", opPut|opDelete|opRestart, "vlens", 3, "vbig", 25, "dfs_lo", 40, "dfs_hi", 160)))
 				add("batch-k3", merge(base, p("k", 3, "ops", opPut|opDelete|opBatch|opRestart, "bmax", 2, "dfs_lo", 60, "dfs_hi", 160)))
@@ -329,6 +333,7 @@ func init() {
 				add("batch-k2", merge(base, p("k", 2, "ops", opPut|opBatch, "bmax", 2)))
 				add("btree-mmap-k2", merge(base, p("k", 2, "ops", opPut|opDelete, "index", 1, "io", 1, "post", 1)))
 				add("second-generation-k2", merge(base, p("premerge", 2, "k", 2, "ops", opPut|opDelete, "vlens", 1)))
+				add("skiplist-s2-k2", merge(base, p("k", 2, "ops", opPut|opDelete, "index", 2, "shards", 2, "post", 1)))
 			} else {
 				add("plain-k4-post", merge(base, p("k", 4, "ops", opPut|opDelete, "post", 1)))
 				add("plain-k4-permute-big", merge(base, p("k", 4, "ops", opPut|opDelete, "vlens", 3, "vbig", 25, "permute", 1)))
@@ -374,6 +379,8 @@ func init() {
 				add("batch-k1", merge(base, p("k", 1, "ops", opBatch, "vlens", 1)))
 				add("always-batch-rot-k3", merge(base, p("k", 3, "ops", opPut|opBatch, "bmax", 1, "vlens", 1, "sync", syncAlways, "dfs_lo", 130, "dfs_hi", 160)))
 				add("mmap-process-death-k2", merge(base, p("k", 2, "ops", opPut|opDelete, "io", 1, "powerloss", 0, "after", 1, "dfs_lo", 60, "dfs_hi", 100)))
+				add("btree-s2-nosync-k2", merge(base, p("k", 2, "ops", opPut|opDelete|opSync, "after", 1, "index", 1, "shards", 2, "vlens", 1)))
+				add("skiplist-s3-always-k2", merge(base, p("k", 2, "ops", opPut|opDelete, "sync", syncAlways, "index", 2, "shards", 3, "vlens", 1, "after", 1)))
 			} else {
 				add("mmap-process-death-k3", merge(base, p("k", 3, "ops", opPut|opDelete|opBatch, "io", 1, "powerloss", 0, "after", 1, "dfs_lo", 60, "dfs_hi", 100)))
 				add("nosync-k3", merge(base, p("k", 3, "ops", opPut|opDelete|opSync, "after", 1, "dfs_lo", 60, "dfs_hi", 120)))
@@ -419,6 +426,8 @@ func init() {
 				add("batch-then-put", merge(base, p("k", 2, "ops", opBatch|opPut, "bmax", 1, "after", 1)))
 				add("interrupted-batch-then-batch", merge(base, p("k", 1, "ops", opBatch, "bmax", 2, "after", 1, "afterbatch", 1, "powerloss", 0)))
 				add("batch-merge-restart", merge(base, p("k", 1, "ops", opBatch, "bmax", 2, "tailops", opMerge|opRestart, "after", 1, "powerloss", 0)))
+				add("skiplist-s2-sync-batch", merge(base, p("k", 1, "preput", 1, "ops", opBatch, "bmax", 2, "bsync", 1, "index", 2, "shards", 2, "after", 1)))
+				add("btree-mmap-overflow-bmax2", merge(base, p("k", 1, "ops", opBatch, "bmax", 2, "dfs_lo", 110, "dfs_hi", 150, "after", 1, "powerloss", 0, "io", 1, "index", 1)))
 			} else {
 				add("overflow-bmax3-pre2", merge(base, p("preput", 2, "k", 1, "ops", opBatch, "bmax", 3, "dfs_lo", 120, "dfs_hi", 170, "after", 1, "powerloss", 0)))
 				add("overflow-bmax3-powerloss", merge(base, p("preput", 1, "k", 1, "ops", opBatch, "bmax", 3, "dfs_lo", 120, "dfs_hi", 150, "after", 1)))
@@ -454,6 +463,7 @@ func init() {
 				add("k1-batch", merge(base, p("k", 1, "ops", opBatch, "bmax", 2, "dfs_lo", 100, "dfs_hi", 160)))
 				add("k3-permute-3files", merge(base, p("k", 3, "ops", opPut|opDelete, "dfs_lo", 60, "dfs_hi", 66, "permute", 1, "crash2", 0)))
 				add("k2-crashed-merge-then-merge", merge(base, p("k", 2, "ops", opPut, "dfs_lo", 60, "dfs_hi", 100, "crash2", 0, "aftermerge", 1, "tailops", opMerge)))
+				add("k2-btree-s2-mmap", merge(base, p("k", 2, "ops", opPut|opDelete, "dfs_lo", 60, "dfs_hi", 100, "crash2", 0, "index", 1, "shards", 2, "io", 1)))
 			} else {
 				add("k3-rot", merge(base, p("k", 3, "ops", opPut|opDelete, "dfs_lo", 60, "dfs_hi", 130)))
 				add("k2-batch", merge(base, p("k", 2, "ops", opPut|opBatch, "bmax", 1, "dfs_lo", 100, "dfs_hi", 150)))
